@@ -58,6 +58,8 @@ structure Shard where
   -- durable
   segs : List (Nat × List Ev)
   index : List (Nat × List Nat)
+  /-- `segments.idx` exists (it is created by the first save) -/
+  indexExists : Bool := false
   wal : List (Nat × List Ev)
   deriving Repr
 
@@ -105,6 +107,15 @@ def flushCmd (s : Shard) : Shard := rotate s
 
 /-! ## Flush worker -/
 
+def insertSorted (x : Nat) : List Nat → List Nat
+  | [] => [x]
+  | y :: ys => if x ≤ y then x :: y :: ys else y :: insertSorted x ys
+
+def sortNat (xs : List Nat) : List Nat := xs.foldr insertSorted []
+
+def maxOpt (xs : List Nat) : Option Nat := xs.foldl (fun m x => match m with | none => some x | some y => some (max x y)) none
+
+
 def typesOf (evs : List Ev) : List Nat :=
   (evs.map (·.ty)).eraseDups
 
@@ -117,6 +128,21 @@ def walClean (s : Shard) (bound : Nat) : Shard :=
 def clearPassive (ps : List (Nat × List Ev)) (seg : Nat) : List (Nat × List Ev) :=
   ps.map fun (i, es) => if i == seg then (i, []) else (i, es)
 
+/-- `SegmentIndex::recover_from_disk`: one entry per 5-digit directory that holds at least one
+`<uid>.zones` file, listing those uids. -/
+def recoverIndex (segs : List (Nat × List Ev)) : List (Nat × List Nat) :=
+  (sortNat ((segs.map (·.1)).eraseDups)).filterMap fun id =>
+    let tys := typesOf ((segs.filter (·.1 == id)).flatMap (·.2))
+    if id < 100000 && !tys.isEmpty then some (id, tys) else none
+
+/-- `SegmentIndex::load`: when `segments.idx` is missing the index is rebuilt from the directory
+listing and saved if anything was found. -/
+def loadIndex (s : Shard) : Shard :=
+  if s.indexExists then s
+  else
+    let r := recoverIndex s.segs
+    if r.isEmpty then s else { s with index := r, indexExists := true }
+
 /-- Advance the head job by one hook interval. An empty job finishes at once: it consumed a
 segment id but creates no directory. -/
 def flushStep (s : Shard) : Shard :=
@@ -127,7 +153,10 @@ def flushStep (s : Shard) : Shard :=
     else match j.step with
       | 0 => { s with segs := s.segs ++ [(j.seg, j.evs)], everSeg := s.everSeg ++ [j.seg],
                       jobs := { j with step := 1 } :: rest }
-      | 1 => { s with index := s.index ++ [(j.seg, typesOf j.evs)], jobs := { j with step := 2 } :: rest }
+      | 1 =>
+        -- `SegmentIndexBuilder::add_segment_entry`: load, insert (replaces an entry of the same id), save
+        { s with index := (loadIndex s).index.filter (fun ent => ent.1 != j.seg) ++ [(j.seg, typesOf j.evs)],
+                 indexExists := true, jobs := { j with step := 2 } :: rest }
       | 2 => { s with live := if s.live.contains j.seg then s.live else s.live ++ [j.seg],
                       jobs := { j with step := 3 } :: rest }
       | 3 => { s with passives := clearPassive s.passives j.seg, jobs := { j with step := 4 } :: rest }
@@ -178,14 +207,6 @@ def visibleKeys (s : Shard) : List Nat := ((scanRows s).map (·.k)).eraseDups
 
 def crash (s : Shard) : Shard :=
   { s with mem := [], passives := [], jobs := [], live := [] }
-
-def insertSorted (x : Nat) : List Nat → List Nat
-  | [] => [x]
-  | y :: ys => if x ≤ y then x :: y :: ys else y :: insertSorted x ys
-
-def sortNat (xs : List Nat) : List Nat := xs.foldr insertSorted []
-
-def maxOpt (xs : List Nat) : Option Nat := xs.foldl (fun m x => match m with | none => some x | some y => some (max x y)) none
 
 /-- `ShardContext::new` on the durable state. -/
 def restart (s : Shard) : Shard :=
